@@ -18,15 +18,16 @@ from vlib.findings import Run
 from vlib.s2z import Tr, at_n, Untranslatable
 
 PY = "/verif/.venv/bin/python"
+HERE = os.path.dirname(os.path.dirname(os.path.abspath(__file__)))
 
 
 def run_history(history, seed=0, timeout=600):
     env = dict(os.environ)
     env["PYTHONHASHSEED"] = str(seed)
-    env["PYTHONPATH"] = "/verif:/repo"
+    env["PYTHONPATH"] = HERE + ":/repo"
     env["PYTHONDONTWRITEBYTECODE"] = "1"
     try:
-        p = subprocess.run([PY, "-m", "checks.c20_worker"], input=json.dumps(history), capture_output=True, text=True, timeout=timeout, env=env, cwd="/verif")
+        p = subprocess.run([PY, "-m", "checks.c20_worker"], input=json.dumps(history), capture_output=True, text=True, timeout=timeout, env=env, cwd=HERE)
     except subprocess.TimeoutExpired:
         return {"worker_error": "timeout"}
     for ln in p.stdout.splitlines():
@@ -102,7 +103,7 @@ def compare(fresh, hist, stats, tag, goal_map=None):
                 if not Y:
                     out.append(("violation", f"invariant basis empty on one side only ({nm})"))
                     continue
-                G = sp.groebner(Y, *syms, order="grevlex")
+                G = sp.groebner(Y, *syms, order="grevlex", domain=sp.QQ)
                 for p in X:
                     if G.reduce(p)[1] != 0:
                         out.append(("violation", f"invariant {p} is not in the ideal reported by the other run ({nm})"))
